@@ -94,6 +94,10 @@ class Connection:
 
         def op() -> Cursor:
             assert self._db is not None
+            if self.sim.fault is not None:
+                err = self.sim.fault(self, sql)
+                if err is not None:
+                    raise err
             return Cursor(self, self._db.execute(sql, params))
 
         return await self._submit("execute", op)
@@ -149,6 +153,8 @@ class SimSqlite:
         self.latency: Callable[[Connection, str], float] = latency or (lambda c, n: 0.0002)
         self.connections: list[Connection] = []
         self.on_op: Callable[[Connection, str, str | None], None] | None = None
+        # fault injection: return an exception to raise instead of executing the statement (e.g. "database is locked")
+        self.fault: Callable[[Connection, str], Exception | None] | None = None
         self.submitted = 0
         self.executed = 0
         self.orphaned = 0
